@@ -21,6 +21,8 @@ THEOREMS = [
     "SC.liveFrom_extra_pos", "SC.scan?_filter_pos", "SC.delete_commit_exact_handlers", "SC.delete_validated",
     "SC.applyOps_dels_eq", "SC.applyOps_append", "SC.applyOps_delDvs", "SC.dvDels_eq",
     "SC.rows_after_compaction", "SC.compaction_commit_exact", "SC.compaction_fresh_exact",
+    # a pass over a SUBSET of the row-sets leaves the unselected row-sets and their delete vectors alone
+    "SC.applyOps_dels_plain", "SC.compact_subset_keeps_other_dvs",
     "SC.sortKeys_perm", "SC.scan?_perm", "SC.compaction_rows_perm",
     "SC.applyOps_dels_other", "SC.compaction_empty_commit_exact",
     # the table lock is one lock per table id: compaction / DELETE / DROP of a table exclude each other
@@ -189,6 +191,11 @@ EXHAUSTIVE_TEMPLATES = [
     # key-predicate DELETE and a key-predicate SELECT
     "(case e4 (gate cmd.begin txn.lock.begin vm.commit.begin vm.committed cp.pass.begin cp.locked)"
     " (setup create:t51 ins:t51:1+4+7 ins:t51:2+5+8 ins:t51:3+6+9) (actors (compact) (del:t51:eq:5 seleq:t51:8 selo:t51)) (sched ) (rng 0) (sticky 0) (script ))",
+    # tiny target_rowset_size: an oversized row-set with deletions is left alone by the pass that
+    # merges the two small ones, against a DELETE on the oversized row-set
+    "(case e5 (gate cmd.begin txn.lock.begin vm.commit.begin vm.committed cp.pass.begin cp.locked)"
+    " (setup create:t1 ins:t1:1000+1001+1002+1003+1004+1005+1006+1007+1008+1009+1010+1011+1012+1013+1014+1015+1016+1017+1018+1019+1020+1021+1022+1023+1024+1025+1026+1027+1028+1029+1030+1031+1032+1033+1034+1035+1036+1037+1038+1039+1040+1041+1042+1043+1044+1045+1046+1047+1048+1049+1050+1051+1052+1053+1054+1055+1056+1057+1058+1059+1060+1061+1062+1063+1064+1065+1066+1067+1068+1069+1070+1071+1072+1073+1074+1075+1076+1077+1078+1079+1080+1081+1082+1083+1084+1085+1086+1087+1088+1089+1090+1091+1092+1093+1094+1095+1096+1097+1098+1099+1100+1101+1102+1103+1104+1105+1106+1107+1108+1109+1110+1111+1112+1113+1114+1115+1116+1117+1118+1119+1120+1121+1122+1123+1124+1125+1126+1127+1128+1129+1130+1131+1132+1133+1134+1135+1136+1137+1138+1139+1140+1141+1142+1143+1144+1145+1146+1147+1148+1149+1150+1151+1152+1153+1154+1155+1156+1157+1158+1159+1160+1161+1162+1163+1164+1165+1166+1167+1168+1169+1170+1171+1172+1173+1174+1175+1176+1177+1178+1179+1180+1181+1182+1183+1184+1185+1186+1187+1188+1189+1190+1191+1192+1193+1194+1195+1196+1197+1198+1199+1200+1201+1202+1203+1204+1205+1206+1207+1208+1209+1210+1211+1212+1213+1214+1215+1216+1217+1218+1219+1220+1221+1222+1223+1224+1225+1226+1227+1228+1229+1230+1231+1232+1233+1234+1235+1236+1237+1238+1239+1240+1241+1242+1243+1244+1245+1246+1247+1248+1249+1250+1251+1252+1253+1254+1255+1256+1257+1258+1259+1260+1261+1262+1263+1264+1265+1266+1267+1268+1269+1270+1271+1272+1273+1274+1275+1276+1277+1278+1279+1280+1281+1282+1283+1284+1285+1286+1287+1288+1289+1290+1291+1292+1293+1294+1295+1296+1297+1298+1299+1300+1301+1302+1303+1304+1305+1306+1307+1308+1309+1310+1311+1312+1313+1314+1315+1316+1317+1318+1319 del:t1:lt:1003 ins:t1:1+2 ins:t1:3) (actors (compact) (del:t1:eq:1050 cnt:t1))"
+    " (sched ) (rng 0) (sticky 0) (script ) (target 1024))",
 ]
 
 
